@@ -20,7 +20,7 @@ PLAN = {
     ),
     "C03": dict(
         quick=[dict(test="TestC03Rapid", checks=1200), *shards("TestC03Matrix", 4)],
-        thorough=[*shards("TestC03Rapid", 12, checks=10000), *shards("TestC03Matrix", 4)],
+        thorough=[*shards("TestC03Rapid", 12, checks=4000), *shards("TestC03Matrix", 4)],
     ),
     "C12": dict(
         quick=[dict(test="TestC12Rapid", checks=3000), *shards("TestC12Names", 4)],
